@@ -3,6 +3,7 @@ module verif
 go 1.26
 
 require (
+	github.com/anishathalye/porcupine v1.3.0
 	github.com/tdewolff/canvas v0.0.0
 	github.com/tdewolff/font v0.0.0-20250314092958-e0eef3f68b08
 )
